@@ -19,7 +19,7 @@ import re
 import sys
 import time
 
-WORK = os.environ.get('VERIF_WORK', '/verif/.work')
+WORK = os.environ.get('VERIF_WORK', os.path.join(os.path.dirname(os.path.dirname(os.path.abspath(__file__))), '.work'))
 
 
 def install_shims():
